@@ -29,6 +29,7 @@ var (
 	fReplayDir = flag.String("replaydir", "", "directory for replay files")
 	fTrace     = flag.Bool("trace", false, "print the history of a replay")
 	fWorkers   = flag.Int("workers", 1, "total number of workers (enumeration is dealt round-robin)")
+	fRealIDs   = flag.Int("realids", 0, "C15 ID stage: number of IDs to draw from the real randomness source")
 	fMode      = flag.String("mode", "serial", "serial | race")
 	fBeginLog  = flag.String("beginlog", "", "race mode: file that receives the plan about to run")
 )
@@ -479,4 +480,19 @@ func TestReplay(t *testing.T) {
 			os.WriteFile(*fOut, []byte("not-reproduced\n"), 0o644)
 		}
 	}
+}
+
+// TestRealIDs: the ID stage with the library's real randomness source (crypto/rand via google/uuid), many goroutines.
+// The seeded stages replace that source to make runs replayable, which would hide a change of the ID scheme's entropy;
+// this stage would not. It writes {"ids":N,"duplicates":k,"illegal":j} to -out.
+func TestRealIDs(t *testing.T) {
+	if *fRealIDs <= 0 {
+		t.Skip("no -realids")
+	}
+	n, dups, illegal, sample := realIDStage(*fRealIDs, 16)
+	b, _ := json.Marshal(map[string]any{"ids": n, "duplicates": dups, "illegal": illegal, "sample": sample})
+	if *fOut != "" {
+		os.WriteFile(*fOut, b, 0o644)
+	}
+	fmt.Printf("REALIDS %s\n", b)
 }
